@@ -24,3 +24,8 @@ Theorem C01_witness_admitted :
 Proof. exact witness_admitted. Qed.
 Print Assumptions C01_witness_admitted.
 
+Theorem C01_refresh_only_own_version_same_token :
+  forall tr, admits base0 tr = true -> at_every_position tr (fun b te => ~ In 105 (mon_C01 b te) /\ ~ In 503 (mon_C05 b te)).
+Proof. exact refresh_legit_thm. Qed.
+Print Assumptions C01_refresh_only_own_version_same_token.
+
